@@ -410,6 +410,19 @@ def _():
             pass
 
 
+@axiom('argmax / argmin along a dimension: per slice the first index of an extremal element (torch and numpy)')
+def _():
+    x = rt(2, RNG.randint(1, 4), 3)
+    d = RNG.randint(0, 2)
+    for f, g, better in ((torch.argmax, numpy.argmax, lambda u, v: u > v), (torch.argmin, numpy.argmin, lambda u, v: u < v)):
+        a = f(x, dim=d)
+        assert torch.equal(a, torch.from_numpy(g(x.numpy(), axis=d)))
+        xs = x.movedim(d, -1).reshape(-1, x.shape[d])
+        for row, ai in zip(xs, a.flatten()):
+            ai = int(ai)
+            assert not any(better(row[k], row[ai]) for k in range(len(row))) and all(better(row[ai], row[k]) for k in range(ai))
+
+
 @axiom('max/min: bound every element and are attained (with dim: per slice, index returned attains)')
 def _():
     x = rt(2, RNG.randint(1, 4), 3, kind='real')
